@@ -42,24 +42,24 @@ PROPS = {
                       "two-level oracle written from the statement: walk the element's attributes once; an attribute whose path is listed in attributes(..) contributes its items to ONE shared field state "
                       "(parse failure = one mistake, empty/bare = nothing), so any split of the same items over several attributes gives the same state; an attribute selected by forward_attrs (all non-consumed when bare) "
                       "is appended unmodified, in order, to the forwarded list; every other attribute leaves the state unchanged whatever its tokens.",
-        "level_note": "Proof per program; programs sampled (FromDeriveInput, FromField, FromAttributes; FromVariant/FromTypeParam not yet in the corpus). Partition invariance is a corollary of the oracle's shape "
+        "level_note": "Proof per program; programs sampled (all five element-level traits: FromDeriveInput, FromField, FromAttributes, FromVariant, FromTypeParam). Partition invariance is a corollary of the oracle's shape "
                       "(awalk folds run_from over the concatenation); attribute tokenisation (parse_attribute_to_meta_list, parse_meta_list) is uninterpreted.",
         "design_ref": "DESIGN.md section 6 C08",
         "assumptions": "L3",
-        "not_covered": ["FromVariant / FromTypeParam receivers", "`attrs` with a custom `with` converter", "partition-invariance as a separately stated lemma (it is implicit in the oracle)"],
+        "not_covered": ["`attrs` / `data` with a custom `with` converter", "FromVariant receivers declaring supports(..) (inline ShapeSet check)", "partition-invariance as a separately stated lemma (it is implicit in the oracle: awalk folds run_from over the concatenation)"],
     },
     "C16": {
         "units": ["c16_body_conversion", "c16_generics"],
         "gen": [{"corpus": "elems", "mode": "full"}],
         "classes": r"postcondition|invariant|post-condition of closure",
         "level_text": "Same emitted functions: the magic fields of the result are proved equal to the corresponding parts of the input element (ident, vis, ty, generics via FromGenerics, attrs = forwarded list, "
-                      "data = Data::try_from(body)) and a failing body conversion is returned as the error, after the attribute layer was clean.",
+                      "discriminant, bounds, default, data = Data::try_from(body), fields = Fields::try_from(variant fields)) and a failing body conversion is returned as the error, after the attribute layer was clean.",
         "level_note": "L3: proof per program; programs sampled. L1 (units c16_body_conversion, c16_generics): Fields::try_from / Data::try_from return Ok with the input's kind and style, exactly one converted entry per field/variant in source order, "
                       "or Err(multiple(all failing elements' errors in order, named fields located at their identifier)); union -> Err; as_ref/map*/with_span/empty_from preserve kind, style, span, count, order; Generics::from_generics keeps count, order and where-clause; "
                       "TypeParams::next yields exactly the type parameters in order and terminates; syn pass-through impls return the named part unchanged. syn seen through full-field mirrors with opaque leaves; converters through client-view traits.",
         "design_ref": "DESIGN.md section 6 C16",
         "assumptions": "L3",
-        "not_covered": ["FromVariant (discriminant, fields) and FromTypeParam (bounds, default) magic fields at L3", "Fields::to_tokens print round trip (quote!/TokenStream: not expressible)", "From<(Style,U)> for Fields / Style::with_fields", "impl From{Field,Variant,TypeParam} for () (`_` parameter pattern rejected by Verus)"],
+        "not_covered": ["magic fields with `with` converters or wrapped in SpannedValue/WithOriginal/Result at L3", "Fields::to_tokens print round trip (quote!/TokenStream: not expressible)", "From<(Style,U)> for Fields / Style::with_fields", "impl From{Field,Variant,TypeParam} for () (`_` parameter pattern rejected by Verus)"],
     },
     "C09": {
         "units": [],
